@@ -260,17 +260,10 @@ pub struct RunOutcome {
 pub fn run_trace(cell: &Cell, p: &TraceParams, net: NetCfg, chooser: Chooser) -> RunOutcome {
     let tracer = match build_tracer(cell, p) {
         Ok(t) => t,
-        Err(e) => {
-            simnet::install(net, chooser);
-            return RunOutcome {
-                world: simnet::take(),
-                result: Ok(()),
-                snapshot: None,
-                panic: None,
-                build_error: Some(format!("{e:?}")),
-                round_snapshots: vec![],
-            };
-        }
+        // every scenario of the harness uses a configuration the Builder accepts on the verified tree;
+        // if a changed Builder refuses it the scenario cannot be run at all - that is not a verdict
+        // about the property (acceptance itself is C16's topic and is judged there)
+        Err(e) => panic!("MACHINERY: Builder::build rejects a configuration this scenario needs ({} first_ttl={} max_ttl={} initial_sequence={} packet_size={}): {e:?}", cell.name(), p.first_ttl, p.max_ttl, p.initial_sequence, p.packet_size),
     };
     simnet::install(net, chooser);
     let src = cell.src();
